@@ -375,11 +375,11 @@ prop("C15", v_dn=["dn.new", "dn.remove", "dn.push", "dn.iter", "dn.next", "dn.le
      explanation="Determinism of name enumeration: the enumeration is a function of the edit history only (V: postconditions of push/remove/iter determine order and values, no dependence on the hash seed). Generation returns the parameters it was given: `signed_by`/`self_signed`/CRL `signed_by` move `self` into the result (S: result expression `params:self`; K: CRL params returned unchanged with the serializer stubbed). Writers take &self / & parameters only (rustc). Absence of shared mutable state is an assumption scan. Thread interleavings are NOT decided.",
      assume=["threads", "s_abs", "kcfg", "hash"])
 
-prop("C03", v_dn=["dn.lemma.types_distinct", "dn.lemma.eq_iff_view", "dn.iter", "dn.next"], k=True, level="other",
+prop("C03", v_dn=["dn.lemma.types_distinct", "dn.lemma.eq_iff_view", "dn.push", "dn.remove", "dn.iter", "dn.next"], k=True, level="other",
      explanation="Issuer name and AKI sources: every construction of the issuer view binds the issuer certificate's own name / key-id method / key (S: signed_by x3, self_signed), the issuer and subject names are written by the same writer from those values (S), the AKI value is PreSpecified(aki) => aki else derive(issuer method, issuer key SPKI) and the CA's SKI is derive(own method, own SPKI) (S + K keyid.prespecified, aki.bytes). Name enumeration is a function of the view (V). REFUTATION kept as known finding: a well-formed name cannot hold a repeated attribute type (V lemma), so imported subjects such as DC=com,DC=example cannot be preserved. Import path and validator verdicts are NOT decided.",
      assume=["x509", "crypto", "s_abs", "kcfg"])
 
-prop("C02", v_dn=["dn.iter", "dn.next", "dn.lemma.lookup_agrees"], vc=["cert"], level="proof",
+prop("C02", v_dn=["dn.push", "dn.remove", "dn.iter", "dn.next", "dn.lemma.lookup_agrees"], vc=["cert"], level="proof",
      explanation="Leaf functions against RFC tables (K, full domains: key-usage bits, GeneralName tags, EKU / attribute OIDs, CIDR masks for all 256 prefixes, pre-specified key id, serial conversions, SPKI export); extension writers tied to bytes for fixed shapes (K: extension wrapper, AKI, key usage value for all 511 sets with the bit-string writer replaced by its verified contract); TBSCertificate composition (S): every writer function's emission normal form equals its RFC 5280 summary contract, and the generated VCs `present iff requested`, `at most once`, criticality, `[3] iff any requested`, `SKI in every CA`, v3.",
      assume=["yasna", "crypto", "s_abs", "kcfg", "hash"])
 
@@ -522,7 +522,7 @@ def s_const(name, file, expected, oname):
 
 ENCODE_CONFIG_TEXT = 'constENCODE_CONFIG:pem::EncodeConfig={letline_ending=matchcfg!(target_family="windows"){true=>pem::LineEnding::CRLF,false=>pem::LineEnding::LF,};pem::EncodeConfig::new().set_line_ending(line_ending)};'
 
-prop("C06", level="other",
+prop("C06", level="other", v_dn=["dn.push", "dn.iter", "dn.next"],
      s_extra=[s_order("CertificateSigningRequestParams::from_der", r'verify_signature\(\)', r'certification_request_info|signature_algorithm|requested_extensions', "verify_before_use",
                       "the signature check (propagated with ?) precedes every use of the parsed request")],
      explanation="Structural contract of the CSR parser (S): the signature check is the first use of the parsed request and its error is propagated with `?` before `info`, the algorithm or the requested extensions are read; every extension outside KeyUsage / SubjectAlternativeName / ExtendedKeyUsage and every non-standard EKU returns Err(UnsupportedExtension) (the normal form of from_der is pinned by its summary contract); from_pem delegates to from_der; issuance writes the SPKI from the request's own key object (S: signed_by passes self.public_key to the serializer and to the stored SPKI) through serialize_public_key_der (S + K bytes). Soundness of x509-parser's verify_signature and everything about arbitrary byte strings are NOT decided.",
@@ -537,7 +537,7 @@ prop("C14", level="other", k=False,
      explanation="S only: each of the five PEM accessors is `pem::encode_config(&Pem::new(<RFC 7468 label>, <the DER accessor of the same object>), ENCODE_CONFIG)` with labels CERTIFICATE / CERTIFICATE REQUEST / X509 CRL / PRIVATE KEY / PUBLIC KEY; ENCODE_CONFIG selects LF unless target_family = windows; each loader is pem::parse followed by the DER entry point on the decoded contents. The behaviour of the pem / base64 crates (64-column lines, padding, strict decoding) is an ASSUMED contract.",
      assume=["pem", "s_abs"])
 
-prop("C17", level="other",
+prop("C17", level="other", v_dn=["dn.push", "dn.iter", "dn.next"],
      explanation="Inverse pairs the importer relies on (K, x509-parser build): from_u16(fold(to_u16)) = identity on all 512 key-usage sets in RFC order; IP octet lengths 4 / 16 accepted, everything else rejected; subnet bytes = address || mask (to_bytes); attribute OID table round trip. The field-by-field converters over x509-parser's parsed certificate are pinned structurally by their summary contracts (S) but their semantics over arbitrary certificates is NOT decided.",
      assume=["x509", "s_abs", "kcfg"])
 
